@@ -52,9 +52,9 @@ SIG = {
     "in_face_index": "fv", "face_to_edges": "f", "face_to_first_corner": "f", "face_to_corners": "f",
     "face_to_faces": "f", "face_id": "*", "m.is_edge_on_border": "vv", "m.is_vertex_on_border": "v",
     "m.boundary_edges": "", "m.interior_edges": "", "m.boundary_vertices": "", "m.interior_vertices": "",
-    "m.is_triangular": "", "m.is_quad": "", "clear": "", "m.clear_boundary_data": "",
+    "m.is_triangular": "", "m.is_quad": "", "clear": "", "m.clear_boundary_data": "", "other": "",
 }
-ACCESSORS = [a for a in SIG if a not in ("clear", "m.clear_boundary_data")]
+ACCESSORS = [a for a in SIG if a not in ("clear", "m.clear_boundary_data", "other")]
 
 
 # ------------------------------------------------------------------------------------------------
@@ -220,9 +220,44 @@ class Run:
 
     def __init__(self, case, spec):
         self.case, self.spec = case, spec
-        self.m = _build(case)
+        pre = case.get("pre")
+        if pre:
+            # an earlier life of the SAME object: built from other faces, queried (caches filled), then re-initialised
+            # with the faces under test (what SurfaceSubdivision does with the caller's mesh object)
+            import mouette as M
+            self.m = _build(pre)
+            for name, args in pre["Q"]:
+                try: self.call_raw(name, args)
+                except Exception: pass  # noqa
+            d = M.mesh.RawMeshData()
+            d.vertices += [M.Vec(float(i % 7), float(i // 7), 0.0) for i in range(case["nv"])]
+            d.faces += _faces_as(case["F"], case.get("rep", "list"))
+            self.m.__init__(d)
+        else:
+            self.m = _build(case)
+        self._other = None
         self.sort = bool(case["sort"])
         self.npargs = bool(case.get("npargs"))
+
+    def call_raw(self, name, args):
+        """a query whose answer is not looked at (earlier life of the object)"""
+        m, c = self.m, self.m.connectivity
+        if name.startswith("m."):
+            r = getattr(m, name[2:]); return r(*args) if callable(r) else r
+        if name.endswith("_inds"): return getattr(c, name[:-5])(*args, True)
+        return getattr(c, name)(*args)
+
+    def other_mesh(self):
+        """a second, different mesh object built and queried in between (state shared between instances would leak)"""
+        import mouette as M
+        d = M.mesh.RawMeshData()
+        d.vertices += [M.Vec(float(i % 4), float(i // 4), 0.0) for i in range(12)]
+        d.faces += [[0, 1, 5, 4], [1, 2, 6, 5], [2, 3, 7, 6], [4, 5, 9, 8], [5, 6, 10], [5, 10, 9]]
+        o = M.mesh.SurfaceMesh(d); c = o.connectivity
+        c.vertex_to_corners(5); c.vertex_to_vertices(5); c.face_id(5, 6, 10); c.edge_id(5, 6); c.half_edge_to_corner(1, 5)
+        c.face_to_faces(1); c.common_edge(0, 1); o.boundary_vertices; o.interior_edges; o.is_vertex_on_border(5); o.is_quad()
+        c.clear(); c.vertex_to_faces(6); o.clear_boundary_data(); o.boundary_edges
+        self._other = o
 
     def ecanon(self, e):
         if e is None: return None
@@ -242,6 +277,7 @@ class Run:
         """returns (raw python answer, canonical string); raises what the implementation raises"""
         m, c = self.m, self.m.connectivity
         a = args
+        if name == "other": self.other_mesh(); return None, "-"
         if name == "clear": c.clear(); return None, "-"
         if name == "m.clear_boundary_data": m.clear_boundary_data(); return None, "-"
         if name == "edge_id": r = c.edge_id(*a); return r, _o(self.ecanon(r))
@@ -375,7 +411,7 @@ def check_answer(spec, run, name, a, raw):
     S, m = spec, run.m
     ekey = lambda e: None if e is None else (min(m.edges[e]), max(m.edges[e]))
     k2 = lambda u, v: (min(u, v), max(u, v))
-    if name in ("clear", "m.clear_boundary_data"): return None
+    if name in ("clear", "m.clear_boundary_data", "other"): return None
     if name == "edge_id":
         k = k2(*a)
         if k not in S.ecanon: return None if raw is None else "id for a non-edge"
@@ -571,7 +607,19 @@ def mesh_cases(rng, s, max_full=10 ** 9, pairs=0, rep_p=0.0):
             qa = [a, rng.choice(spec.domain(a))]
             clr = rng.choice([["clear", []], ["m.clear_boundary_data", []], ["clear", []]])
             H.append([qa, clr, qa] + _sample_queries(rng, spec, 1) + [qa])
+        for _ in range(max(3, pairs // 5)):
+            a, b = rng.choice(ACCESSORS), rng.choice(ACCESSORS)
+            qa = [a, rng.choice(spec.domain(a))]
+            H.append([qa, ["other", []], [b, rng.choice(spec.domain(b))], ["other", []], qa])
         out.append(dict(base, sort=(sort or rng.random() < 0.7), mode="pairs", H=H))
+        if rng.random() < 0.5:
+            # the same OBJECT had other faces before (queried, then re-initialised): stale caches / boundary data would show
+            ps = G.random_surface(rng, rng.choice([6, 14]))
+            pspec = Spec(len(ps["V"]), ps["F"])
+            pre = {"nv": len(ps["V"]), "F": ps["F"], "sort": sort, "Q": _sample_queries(rng, pspec, 25) +
+                   [["m.boundary_vertices", []], ["m.interior_edges", []], ["vertex_to_corners", [0]], ["face_id", list(ps["F"][0])], ["edge_id", [ps["F"][0][0], ps["F"][0][1]]]]}
+            c = dict(rng.choice(out[-3:]), pre=pre)
+            out.append(c)
     # input representation: the same surface given as tuples / numpy arrays / numpy scalars, ids passed as numpy ints
     if rng.random() < rep_p:
         c = dict(rng.choice(out))
@@ -616,9 +664,11 @@ def classify(case, obs):
           "loops:" + str(min(st["loops"], 3)) + ("+" if st["loops"] >= 3 else ""), "chi:" + str(st["chi"]),
           "arity:" + ("tri" if all(len(f) == 3 for f in case["F"]) else "quad" if all(len(f) == 4 for f in case["F"]) else "mixed")]
     for t in {t for h in obs.split(" || ") for t in h.split(" | ") if t.startswith("err")}: ks.append(t)
+    if case.get("pre"): ks.append("history:object-reinitialised-with-other-faces")
     if case.get("mode") != "full":
         for h in case["H"]:
             for q in h: ks.append("q:" + q[0])
+            if any(q[0] == "other" for q in h): ks.append("history:other-mesh-queried-in-between")
             if len(h) >= 3 and h[1][0] in ("clear", "m.clear_boundary_data") and h[0] == h[2]: ks.append("history:ask-clear-ask-again")
             elif case.get("mode") == "pairs": ks.append("history:ordered-pair")
     return ks
@@ -746,7 +796,7 @@ def translate():
     def site():
         t = extract_table()
         state["t"] = t
-        need = ["conn." + a for a in SIG if not a.startswith("m.") and not a.endswith("_inds")] + \
+        need = ["conn." + a for a in SIG if not a.startswith("m.") and not a.endswith("_inds") and a != "other"] + \
                ["mesh." + a[2:] for a in SIG if a.startswith("m.")]
         have = {a for a, _ in t["qnames"]}
         miss = [n for n in need if n not in have]
